@@ -1,4 +1,9 @@
+#[cfg(not(may_verif))]
 use std::sync::atomic::{AtomicUsize, Ordering};
+#[cfg(may_verif)]
+use crate::verif::atomic::AtomicUsize;
+#[cfg(may_verif)]
+use std::sync::atomic::Ordering;
 use std::time::Duration;
 
 // atomic duration in milli seconds
